@@ -253,7 +253,7 @@ class Models:
 
     def bits_bound(self, a):
         """smallest k in a few candidates with pc => 0 <= a < 2^k, else None"""
-        for k in (1, 8, 16, 32, 64):
+        for k in (8, 64):
             if self.st.must(z3.And(a >= 0, a < (1 << k))):
                 return k
         return None
@@ -299,17 +299,18 @@ class Models:
             return mk_int(b)
         if cb == 0:
             return mk_int(a)
-        # disjoint support: a < 2^k and b multiple of 2^k (or vice versa) -> addition
+        # y syntactically x' * 2^k (a shifted operand): disjoint iff 0 <= x < 2^k
         for x, y in ((a, b), (b, a)):
-            for k in (1, 2, 3, 4, 5, 6, 7, 8, 16, 24, 32):
-                if self.st.must(z3.And(x >= 0, x < (1 << k), y >= 0, y % (1 << k) == 0)):
-                    return mk_int(x + y)
+            k = _pow2_factor(y)
+            if k is not None and self.st.must(z3.And(x >= 0, x < (1 << k), y >= 0)):
+                return mk_int(x + y)
         ka, kb = self.bits_bound(a), self.bits_bound(b)
-        if ka is not None and kb is not None:
+        if ka is not None and kb is not None and max(ka, kb) <= 8:
             k = max(ka, kb)
             return mk_int(z3.Sum([z3.If(z3.Or((a / (1 << i)) % 2 == 1, (b / (1 << i)) % 2 == 1), 1 << i, 0)
                                   for i in range(k)]))
-        # sound bounds only
+        # operands not provably disjoint and wider than a byte: uninterpreted result with the sound bounds only
+        # (bit-blasting wide ORs makes the VCs intractable; counter-models are confirmed by native replay)
         r = z3.Int(fresh_name("bor"))
         self.st.assume(mk_bool(z3.Implies(z3.And(a >= 0, b >= 0),
                                           z3.And(r >= a, r >= b, r <= a + b))))
@@ -400,7 +401,8 @@ class Models:
             except TypeError as e:
                 self.raise_(TypeError, str(e))
         if self.is_num(l) and self.is_num(r):
-            raise Unsupported("ordering of opaque floats")
+            # ordering involving an opaque float: unknown outcome (sound over-approximation; covers NaN as well)
+            return SBool(z3.Bool(fresh_name("fcmp")))
         self.raise_(TypeError, f"'{op.__name__}' not supported between instances of "
                                f"'{self.pytype(l).__name__}' and '{self.pytype(r).__name__}'")
 
@@ -1115,7 +1117,7 @@ class Models:
 
     # ------------------------------------------------------------------ calls
     def make_kwargs(self, kwargs):
-        if isinstance(kwargs, KwMap):
+        if ("__kwmap__" in kwargs):
             return kwargs
         return KwMap(kwargs)
 
@@ -1172,11 +1174,6 @@ class Models:
         return default
 
     def call_value(self, f, args, kwargs):
-        if "__kwmap__" in kwargs:
-            km = kwargs.pop("__kwmap__")
-            if kwargs:
-                raise Unsupported("symbolic ** plus explicit keywords")
-            kwargs = km
         if isinstance(f, BoundMethod):
             if f.fobj is not None:
                 return self.call_pyfunc(f.fobj, [f.recv] + list(args), kwargs)
@@ -1189,7 +1186,7 @@ class Models:
             return self.call_pyfunc(f, args, kwargs)
         if isinstance(f, type):
             return self.call_class(f, args, kwargs)
-        if isinstance(kwargs, KwMap):
+        if ("__kwmap__" in kwargs):
             raise Unsupported("symbolic kwargs to builtin")
         try:
             h = self.table.get(f)
@@ -1226,14 +1223,14 @@ class Models:
             return ExcVal(cls, tuple(args))
         h = self.table.get(cls)
         if h is not None:
-            if isinstance(kwargs, KwMap):
+            if ("__kwmap__" in kwargs):
                 raise Unsupported("symbolic kwargs to builtin class")
             return h(*args, **kwargs)
         if getattr(cls, "__module__", "").startswith("pyubx2"):
             return self.ex.reg.construct(self.ex, cls, list(args), kwargs)
         if hasattr(cls, "model_new"):
             return cls.model_new(self.ex, args, kwargs)
-        if all(deep_concrete(a) for a in args) and not isinstance(kwargs, KwMap) and \
+        if all(deep_concrete(a) for a in args) and not ("__kwmap__" in kwargs) and \
                 all(deep_concrete(a) for a in kwargs.values()) and cls.__module__ in ("builtins", "datetime"):
             try:
                 return cls(*args, **kwargs)
@@ -1301,7 +1298,7 @@ class Models:
         if isinstance(recv, (list, dict, set, bytearray)) and name in READONLY_MUTATORS:
             self.st.record_write(("ghost", "tables"))
             return None
-        if isinstance(kwargs, KwMap):
+        if ("__kwmap__" in kwargs):
             raise Unsupported("symbolic kwargs to builtin method")
         if all(deep_concrete(a) for a in args) and all(deep_concrete(a) for a in kwargs.values()):
             try:
@@ -1649,8 +1646,8 @@ class Models:
                 if self.st.must(b > 0):
                     return mk_int(z3.If(a >= 0, a / b, -((-a) / b)))
                 raise Unsupported("int(a/b) with non-positive divisor")
-            # may raise for nan/inf
-            if self.st.choice(2, "int-of-float-raises") == 0:
+            # may raise for nan/inf (unless the run's precondition says the supplied floats are finite)
+            if not self.st.ghost.get("finite_floats") and self.st.choice(2, "int-of-float-raises") == 0:
                 if self.st.choice(2, "nan-or-inf") == 0:
                     self.raise_(ValueError, "cannot convert float NaN to integer")
                 self.raise_(OverflowError, "cannot convert float infinity to integer")
@@ -1827,8 +1824,10 @@ class Models:
             else:
                 self.raise_(struct.error, "required argument is not a float")
         n = 4 if fmt == "<f" else 8
-        if n == 4 and self.st.choice(2, "pack-f-overflow") == 0:
-            self.raise_(OverflowError, "float too large to pack with f format")
+        if n == 4:
+            from contracts.specs import FITS32
+            if self.st.branch(mk_bool(z3.Not(FITS32(v.e)))):
+                self.raise_(OverflowError, "float too large to pack with f format")
         cells = [z3.Int(fresh_name("pk")) for _ in range(n)]
         for c in cells:
             self.st.assume(mk_bool(z3.And(c >= 0, c <= 255)))
@@ -1906,6 +1905,18 @@ class SpecFn:
         self.name = name
         self.fn = fn
         self.native = native
+
+
+def _pow2_factor(e):
+    """k if the term is syntactically c * t with c == 2^k (k >= 1), else None"""
+    try:
+        if z3.is_mul(e) and e.num_args() == 2 and z3.is_int_value(e.arg(0)):
+            c = e.arg(0).as_long()
+            if c > 1 and c & (c - 1) == 0:
+                return c.bit_length() - 1
+    except Exception:
+        pass
+    return None
 
 
 def is_symv(v):
